@@ -8,6 +8,8 @@ Sections:
   begin kind=token rate=<r> burst=<b> ninst=<k>
     ft <ms> | allow|allowc|allowx <inst> <now-ns> <n> | callow <now-ns> <n> <m> | cstorm <now-ns> <n> <g> <c>
     | cmix <now-ns> <inst:n,inst:n,…> | down | upstore | up | latefail <inst>
+  begin kind=tokenz rate=<int≠0> burst=<int>           (negative arguments; one limiter, store path only)
+    allow <now-ns> <n:int>   => ok|no a=<redisAlive after> tok=<v>:<ttl-ms> ts=<v>:<ttl-ms>
 Observations:
   take…  => <code 0..3> <nil|err|unknowncode|canceled> cnt=<v>:<ttl-ms>|cnt=-  [u=<u0>,<u1> local wall-clock seconds, align only]
   ctake  => sorted codes of m concurrent takes, then cnt=…
@@ -693,10 +695,41 @@ def runToken (r : Report) (s : Section) : Report := Id.run do
     | _ => r := r.mismatch s.idx l.idx "bad-op" (joinSp l.op)
   return r
 
+/-! ### token sections with negative arguments (store path, one limiter, keys never expire) -/
+
+def runTokenZ (r : Report) (s : Section) : Report := Id.run do
+  let rate := kvInt s.cfg "rate" 1
+  let burst := kvInt s.cfg "burst" 1
+  let mut b : ZBucket := ⟨none, none⟩
+  let mut r := r
+  if rate < 0 then r := r.addCover "z-sec-rate-negative"
+  if burst < 0 then r := r.addCover "z-sec-burst-negative"
+  for l in s.lines do
+    r := { r with ops := r.ops + 1 }
+    let impl := joinSp l.obs
+    match l.op with
+    | ["allow", ns, n] =>
+      match ns.toInt?, n.toInt? with
+      | some ns, some n =>
+        if rate = 0 then r := r.mismatch s.idx l.idx "no tokenz section with rate 0 (the constructor panics)" impl
+        else
+          let res := tokenScriptZ rate burst (ns / 1000000000) n b
+          b := res.1
+          let ttl := ttlZ rate burst * 1000
+          let model := s!"{if res.2 then "ok" else "no"} a=1 tok={b.tok.getD 0}:{ttl} ts={b.ts.getD 0}:{ttl}"
+          if model ≠ impl then r := r.mismatch s.idx l.idx model impl
+          if n < 0 then r := r.addCover (if res.2 then "z-negative-n-granted-and-refunded" else "z-negative-n-denied")
+          if (b.tok.getD 0) > burst then r := r.addCover "z-stored-tokens-above-capacity"
+          if (b.tok.getD 0) < 0 then r := r.addCover "z-stored-tokens-negative"
+      | _, _ => r := r.mismatch s.idx l.idx "bad-op" (joinSp l.op)
+    | _ => r := r.mismatch s.idx l.idx "bad-op" (joinSp l.op)
+  return r
+
 def runSection (r : Report) (s : Section) : Report :=
   match kv? s.cfg "kind" with
   | some "period" => runPeriod r s
   | some "token" => runToken r s
+  | some "tokenz" => runTokenZ r s
   | _ => r.mismatch s.idx 0 "bad-section" (joinSp s.cfg)
 
 def driver (secs : List Section) : Report :=
